@@ -9,10 +9,15 @@ TRUSTED_BASE = [
     'list.extend(iterator) appends as it goes whereas slice assignment materialises first; int/int is float on py3',
     'call-graph resolution by scope, class hierarchy and confirmed method-name families (over-approximation)',
     'std::vector<T>(n) value-initialises; std::hex and fill are sticky stream state, width is not',
+    'normal form assumptions: ordering comparisons are between totally ordered values, attribute reads and the codec functions '
+    '(_encode, encode_fcn) are free of side effects; /verif/reference/src is the version of the analysed sources on which the '
+    'obligations were confirmed',
 ]
 
 
 def P(title, decides, not_decided, technique, claimed=False, na_reason='checker not implemented yet'):
+    technique += ('; Python sources compared in a normal form (copy propagation, block SSA, if-shape and idiom normalisation, '
+                  'helper folding) through atomic path facts and meaning-level text; reviewed-reference fallback for local shape obligations')
     return {'title': title, 'explanation': decides, 'not_decided': not_decided, 'technique': technique,
             'claimed': claimed, 'na_reason': na_reason}
 
